@@ -80,7 +80,7 @@ CapsOf(scope, k) == SelectSeq(scope, LAMBDA c : c.k = k)
 Lit(ty, s) == CASE ty = "int"   -> [n |-> "int", v |-> <<0, 1, 2, 3, 5, 7, 10, 20, -1, -4>>[Ch(s, 10)]]
                 [] ty = "float" -> [n |-> "float", v |-> << <<1,2>>, <<3,2>>, <<2,1>>, <<1,4>>, <<5,2>>, <<-3,2>>, <<10,1>> >>[Ch(s, 7)]]
                 [] OTHER        -> IF Profile = "fmt" /\ Coin(s, 1, 3)
-                                   THEN [n |-> "str", v |-> << <<"q","\"","r">>, <<"b","\\","s">>, <<"\"">>, <<"e","n","d","\\">> >>[Ch(s, 4)]]
+                                   THEN [n |-> "str", v |-> << <<"q","\"","r">>, <<"b","\\","s">>, <<"\"">>, <<"e","n","d","\\">>, <<"d","\\","\"","q">>, <<"\\","\"">> >>[Ch(s, 6)]]
                                    ELSE [n |-> "str", v |-> << <<"a">>, <<"f","o","o">>, <<"B","a","Z">>, <<>>, <<"x","_","y">>, <<"4","2">> >>[Ch(s, 6)]]
 NzLit(ty, s) == CASE ty = "int" -> [n |-> "int", v |-> <<1, 2, 3, 5, 7, -2>>[Ch(s, 6)]]
                   [] OTHER      -> [n |-> "float", v |-> << <<2,1>>, <<1,2>>, <<4,1>> >>[Ch(s, 3)]]
